@@ -647,6 +647,32 @@ pub fn run_inject(cfg: &Cfg) {
         }
     }
     if cfg.shard == 0 {
+        // the same piece delegated in one pattern and interpreted in the other, under RegexBuilder::case_insensitive(true)
+        // with the case sensitivity switched back on inside
+        for (p1, p2) in [
+            (r"(?-i)abc", r"(?-i)(?=)abc"), (r"(?-i:a)b", r"(?-i:(?=)a)b"), (r"x(?-i:[a-c])", r"x(?=)(?-i:[a-c])"), (r"(?-i:ab)c", r"(?-i:a(?=)b)c"),
+            (r"ab", r"a(?=)b"), (r"[a-c]+", r"(?:(?=)[a-c])+"),
+        ] {
+            let mut b1 = fancy_regex::RegexBuilder::new(p1);
+            b1.case_insensitive(true);
+            let mut b2 = fancy_regex::RegexBuilder::new(p2);
+            b2.case_insensitive(true);
+            if let (Ok(r1), Ok(r2)) = (b1.build(), b2.build()) {
+                for t in ["ABC", "abc", "aBc Abc", "Ab aB AB ab", "xA xa XB", "ABc abC"] {
+                    s.count("inject_cases");
+                    let a1: Vec<Option<(usize, usize)>> = r1.find_iter(t).take(t.len() + 3).map(|m| m.ok().map(|m| (m.start(), m.end()))).collect();
+                    let a2: Vec<Option<(usize, usize)>> = r2.find_iter(t).take(t.len() + 3).map(|m| m.ok().map(|m| (m.start(), m.end()))).collect();
+                    if a1 != a2 {
+                        s.violation(
+                            "C03",
+                            "metamorphic",
+                            &[("pattern", p1.to_string()), ("pattern2", p2.to_string()), ("text", t.to_string()), ("pos", "0".to_string()),
+                              ("base", format!("case_insensitive(true): {:?}", a1)), ("injected", format!("{:?}", a2))],
+                        );
+                    }
+                }
+            }
+        }
         for (p1, p2, t) in long_cases() {
             let b1 = s.pattern(&p1, &opts, false, true);
             let b2 = s.pattern(&p2, &opts, false, true);
